@@ -354,6 +354,7 @@ func supervise(def *PropDef, tier string, seed uint64) int {
 					total.Violations = append(total.Violations, ViolationRec{Prop: def.ID, Sig: sig, Msg: msg, Case: caseID, Replay: path})
 				}
 				inconcl = append(inconcl, "worker lost: "+msg)
+				total.Cases++ // the history the worker was executing when it ended
 				continue
 			}
 			inconcl = append(inconcl, fmt.Sprintf("worker died (%v): %s", werr, oneLine(tail)))
